@@ -499,3 +499,41 @@ by rewrite daun_inverse_tri_spec // trmx_invT.
 Qed.
 
 End Dasch.
+
+(* ------------------------------------------------------------------------ *)
+(* C04: every matrix-class method is  X |-> X *m A  with A independent of X    *)
+(* ------------------------------------------------------------------------ *)
+Section AllRowwise.
+Variable F : fieldType.
+Variable n : nat.
+
+Lemma daun_all_rowwise (B L : 'M[F]_n) (s : F) :
+  [/\ is_rowwise (fun h X => @daun_forward_deg0_none_dr1 F n h B X) B,
+      is_rowwise (fun h X => @daun_forward_deg1_none_dr1 F n h B X) B,
+      is_rowwise (fun h X => @daun_forward_deg2_none_dr1 F n h B X) B &
+      is_rowwise (fun h X => @daun_forward_deg3_none_dr1 F n h B X) B] /\
+  [/\ is_rowwise (fun h X => @daun_inverse_deg0_none_dr1 F n h B X) (daun_inv_tri_op B),
+      is_rowwise (fun h X => @daun_inverse_deg1_none_dr1 F n h B X) (daun_inv_tri_op B),
+      is_rowwise (fun h X => @daun_inverse_deg2_none_dr1 F n h B X) (daun_inv_tri_op B) &
+      is_rowwise (fun h X => @daun_inverse_deg3_none_dr1 F n h B X) (invmx B)] /\
+  [/\ is_rowwise (fun h X => @daun_inverse_deg0_diff_dr1 F n h B L s X) (daun_tikhonov_diff B L s),
+      is_rowwise (fun h X => @daun_inverse_deg0_L2_dr1 F n h B s X) (daun_tikhonov_L2 B s),
+      is_rowwise (fun h X => @daun_inverse_deg0_L2c_dr1 F n h B s X) (daun_tikhonov_L2c B s) &
+      is_rowwise (fun h X => @daun_inverse_deg0_num_dr1 F n h B L s X) (daun_tikhonov_diff B L s)].
+Proof.
+do !split; move=> h X //; exact: daun_inverse_tri_rowwise.
+Qed.
+
+Lemma basex_dasch_rowwise (A D W : 'M[F]_n) :
+  [/\ is_rowwise (fun h X => @basex_core F n h A X) A,
+      is_rowwise (fun h X => @dasch_two_point_dr1 F n h D X) D^T,
+      is_rowwise (fun h X => @dasch_three_point_dr1 F n h D X) D^T &
+      is_rowwise (fun h X => @dasch_onion_peeling_dr1 F n h W X) (invmx W)^T].
+Proof.
+split; move=> h X //.
+- by case: (dasch_rowwise D W X).
+- by case: (dasch_rowwise D W X).
+- by case: (dasch_rowwise D W X).
+Qed.
+
+End AllRowwise.
